@@ -163,12 +163,20 @@ func runC15(c *fw.Ctx, cs fw.Case) {
 		for i := 0; i < cs.N; i++ {
 			rc := &recipes[r.Intn(len(recipes))]
 			h, tag := c15Root(r, i+cs.Idx)
+			if i%4 == 1 {
+				// mates both ways: the mating net with the attacker to move, or - after one move of his - with the
+				// side that is being mated to move (a negative mate score must end the analysis just the same)
+				h, tag = gen.Playout(r, gen.TacticOK(r, 8), r.Intn(2), gen.Tactical), "matingnet, either side to move"
+			}
 			b, ok := boardOf(h)
 			if !ok {
 				continue
 			}
 			n0, n1 := branching(b, 0)
 			limit := depthFor(n0, n1, 2500, 5)
+			if i%4 == 1 && limit < 4 {
+				limit = 4
+			}
 			if rc.name == "turochamp" && limit > 2 {
 				limit = 2
 			}
@@ -202,6 +210,9 @@ func runC15(c *fw.Ctx, cs fw.Case) {
 			// gaps are legal (one-slot channel drops unread iterations) but the end is not negotiable
 			if mateWithin(last) {
 				c.Count("ended_by_mate", 1)
+				if last.Score.Type == eval.NegInf || (last.Score.Type == eval.MateInX && last.Score.Mate < 0) {
+					c.Count("ended_by_mate_against_the_mover", 1)
+				}
 			} else if last.Depth != limit {
 				c.Violate("iter:limit", "analysis with depth limit %d ended at depth %d without a forced mate: %s", limit, last.Depth, what)
 			}
@@ -636,7 +647,7 @@ func init() {
 			return l
 		},
 		Floors: func(string) map[string]int64 {
-			return map[string]int64{"limit_checks": 10000, "streams": 100, "iterations_compared": 500, "ended_by_mate": 3, "halts_after_k": 60, "gated_halts": 50, "clock_runs": 20, "engine_default_runs": 12, "explicit_no_limit_runs": 6, "uci_clock_gos": 100, "uci_clock_zero": 20, "gated_overlapping_halts": 20, "long_runs_beyond_70000": 1, "long_runs_beyond_300": 1}
+			return map[string]int64{"limit_checks": 10000, "streams": 100, "iterations_compared": 500, "ended_by_mate": 3, "ended_by_mate_against_the_mover": 2, "halts_after_k": 60, "gated_halts": 50, "clock_runs": 20, "engine_default_runs": 12, "explicit_no_limit_runs": 6, "uci_clock_gos": 100, "uci_clock_zero": 20, "gated_overlapping_halts": 20, "long_runs_beyond_70000": 1, "long_runs_beyond_300": 1}
 		},
 		Run: runC15,
 	})
